@@ -19,7 +19,6 @@ package lucene
 import (
 	"encoding/json"
 	"fmt"
-	"hash/fnv"
 	"math"
 	"math/rand"
 	"os"
@@ -31,6 +30,7 @@ import (
 	"strings"
 	"sync"
 	"testing"
+	"time"
 	"unicode/utf8"
 
 	"github.com/grindlemire/go-lucene/pkg/driver"
@@ -194,7 +194,7 @@ var vc12Values = []string{
 	// non-ASCII
 	`héé`, `日本`, `"日本 語"`, `"é*"`, `ü*`,
 	// escapes
-	`a\:b`, `a\ b`, `\/p\/`, `a\*b`,
+	`a\:b`, `a\ b`, `\/p\/`, `\/`, `a\*b`,
 }
 
 var vc12Fields = []string{`a`, `f_1`, `héé`, `"a b"`, `7`, `a.b`, `w*`, `""`}
@@ -284,7 +284,7 @@ var vc12Repr = []string{
 }
 
 // core alphabet for the exhaustive depth-2 closure
-var vc12CoreQuick = []string{`b`, `a:7`, `a:"x y"`, `a:w*`, `a:[1 TO *]`, `a:(b OR 7)`, `a:>=1.5`, `héé:""`}
+var vc12CoreQuick = []string{`b`, `a:7`, `a:"x y"`, `a:w*`, `a:[1 TO *]`, `a:(b OR 7)`, `héé:""`}
 var vc12CoreThorough = []string{`b`, `a:7`, `a:"x y"`, `a:w*`, `a:[1 TO *]`, `a:(b OR 7)`, `a:>=1.5`, `héé:""`,
 	`a:/r/`, `a:{b TO "x y"}`, `"q*"`, `a:5.0`, `-3`, `a:<\/p\/`}
 
@@ -369,12 +369,15 @@ type vc12Stats struct {
 }
 
 func vc12Hash(s string, variant bool) uint64 {
-	h := fnv.New64a()
-	h.Write([]byte(s))
-	if variant {
-		h.Write([]byte{0})
+	h := uint64(14695981039346656037) // FNV-1a
+	for i := 0; i < len(s); i++ {
+		h ^= uint64(s[i])
+		h *= 1099511628211
 	}
-	return h.Sum64()
+	if variant {
+		h *= 1099511628211
+	}
+	return h
 }
 
 var vc12PG = driver.NewPostgresDriver()
@@ -437,6 +440,22 @@ func vc12IsNum(v any) bool {
 	return false
 }
 
+// vc12Slug makes a category name of lower-case words and dashes.
+func vc12Slug(in string) string {
+	var b strings.Builder
+	dash := false
+	for _, r := range strings.ToLower(in) {
+		if (r >= 'a' && r <= 'z') || (r >= '0' && r <= '9') {
+			b.WriteRune(r)
+			dash = false
+		} else if !dash && b.Len() > 0 {
+			b.WriteByte('-')
+			dash = true
+		}
+	}
+	return strings.Trim(b.String(), "-")
+}
+
 // vc12KindInferred: the one change of leaf kind the statement concedes - a LITERAL string that
 // contains * or ? comes back as WILD, a /slash-delimited/ one as REGEXP (same text).
 func vc12KindInferred(x, y *expr.Expression) bool {
@@ -470,7 +489,7 @@ func vc12Diff(a, b any, path string, inRange, lenient bool) (tag, detail string)
 		}
 		if x.Op != y.Op && !(lenient && vc12KindInferred(x, y)) {
 			if vc12IsLeafOp(x.Op) && vc12IsLeafOp(y.Op) {
-				return "leaf-kind-" + strings.ToLower(x.Op.String()) + "-to-" + strings.ToLower(y.Op.String()),
+				return vc12Slug("leaf-kind-" + x.Op.String() + "-to-" + y.Op.String()),
 					fmt.Sprintf("%s: %#v became %#v", path, x, y)
 			}
 			return "operator-changed", fmt.Sprintf("%s: %v became %v", path, x.Op, y.Op)
@@ -540,7 +559,7 @@ func vc12Diff(a, b any, path string, inRange, lenient bool) (tag, detail string)
 		return "range-bound-number-changed", fmt.Sprintf("%s: %T %v became %T %v", path, a, a, b, b)
 	}
 	if reflect.TypeOf(a) != reflect.TypeOf(b) {
-		return fmt.Sprintf("leaf-type-%T-to-%T", a, b), fmt.Sprintf("%s: %T %v became %T %v", path, a, a, b, b)
+		return vc12Slug(fmt.Sprintf("leaf-type-%T-to-%T", a, b)), fmt.Sprintf("%s: %T %v became %T %v", path, a, a, b, b)
 	}
 	return "leaf-value-changed", fmt.Sprintf("%s: %#v became %#v", path, a, b)
 }
@@ -708,6 +727,7 @@ func TestVerifStandin_C12(t *testing.T) {
 	tier, seed := vc12Env()
 	rep := vc12Report{Property: "C12", Tier: tier, Seed: seed, ByCategory: map[string]int{}, Failures: []string{}, Samples: []string{}}
 
+	tStart := time.Now()
 	// ---- build the corpus (deterministic order) ----
 	atoms := vc12Atoms()
 	jobs := make([]vc12Job, 0, 1<<20)
@@ -799,7 +819,7 @@ func TestVerifStandin_C12(t *testing.T) {
 
 	// phase D: seeded random derivations of depth 3..5 over all atoms
 	n0 = len(jobs)
-	nRandom := 100000
+	nRandom := 80000
 	if tier == "thorough" {
 		nRandom = 2000000
 	}
@@ -814,6 +834,7 @@ func TestVerifStandin_C12(t *testing.T) {
 	mark("random", n0)
 	seen = nil
 
+	tBuild := time.Since(tStart)
 	// ---- evaluate in parallel; aggregation is order independent ----
 	workers := runtime.NumCPU()
 	if workers > 16 {
@@ -893,6 +914,7 @@ func TestVerifStandin_C12(t *testing.T) {
 	for _, f := range rep.Failures {
 		t.Errorf("C12 violated: %s", f)
 	}
+	t.Logf("corpus built in %v, whole run %v", tBuild, time.Since(tStart))
 	t.Logf("C12 %s: %d evaluations, %d accepted, %d distinct non-trivial, %d failures in %d categories",
 		tier, rep.Evaluations, total.accepted, rep.Distinct, rep.FailCount, len(rep.ByCategory))
 }
